@@ -94,6 +94,10 @@ let () =
                  | None -> "rejected"
                  | Some vs -> String.concat "," (List.map (function None -> "-" | Some v -> hex_of_bytes v ^ ".") vs)) in
       Printf.printf "%s\t%s\n" id out
+    | id :: "U" :: pnum :: hostedl :: keys :: _ ->
+      let ks = List.map bytes_of_hex (split_on ',' keys) in
+      let st = ns_hosting (n_of_dec pnum) (List.map (fun h -> n_of_int (int_of_string h)) (split_on ',' hostedl)) in
+      Printf.printf "%s\t%s\n" id (match ns_mget_route st (List.map route_key ks) with None -> "rejected" | Some _ -> "served")
     | id :: "B" :: pnum :: keys :: _ ->
       (* the last key is the only stored one *)
       let ks = List.map bytes_of_hex (split_on ',' keys) in
